@@ -983,7 +983,8 @@ class iindex(dict):
         explicit entries. You may need to shift_common() on self or other
         before updating.
         """
-        for coords, rowids in other.items():
+        # Removing a whole entry resizes self: walk a list in case other is self.
+        for coords, rowids in list(other.items()):
             if rowids is None:
                 # Allow callers to .get(coords) without having to manage None
                 continue
